@@ -165,6 +165,8 @@ class Ctx:
                "-timeout", "%ds" % (timeout + 30), "-run", run]
         if race:
             cmd.append("-race")
+        if REPO != "/repo":
+            cmd.append("-modfile=" + alt_modfile())
         cmd += list(extra)
         cmd.append("./" + pkg)
         e = goenv()
@@ -289,6 +291,28 @@ def ensure_harness():
         with open(dst, "w") as f:
             f.write(data)
     _harness_ready = True
+
+
+_alt = None
+
+
+def alt_modfile():
+    """VERIF_REPO=<worktree>: build the harness against a scratch copy of the
+    repository (negative controls, seeded changes) without touching /repo."""
+    global _alt
+    if _alt is None:
+        d = tempfile.mkdtemp(prefix="verif-mod-")
+        import atexit
+        atexit.register(shutil.rmtree, d, True)
+        gm = open(os.path.join(HARNESS, "go.mod")).read().replace("=> /repo", "=> " + os.path.abspath(REPO))
+        open(os.path.join(d, "go.mod"), "w").write(gm)
+        data = open(os.path.join(REPO, "go.sum")).read()
+        extra = os.path.join(HARNESS, "go.sum.extra")
+        if os.path.exists(extra):
+            data += open(extra).read()
+        open(os.path.join(d, "go.sum"), "w").write(data)
+        _alt = os.path.join(d, "go.mod")
+    return _alt
 
 
 def read_ndjson(path):
